@@ -9,7 +9,7 @@ EXTRACTS = ["Consts"]
 # After the orchestrator applies proposed_fixes/C09-float_zero_sign_merged.diff (make_dedup_key: both key
 # repairs) set KEY_FX = KEY_OS = True; after C09-neg_int_over_4300_digits_crash.diff set
 # ABS_THRESHOLD = NEG_REPAIRED = True (i.e. replace _REPAIRED by True below).  Nothing else changes.
-_REPAIRED = os.environ.get("C09_REPAIRED", "0") == "1"     # testing hook: C09_REPAIRED=1 VERIF_REPO=<patched tree>
+_REPAIRED = os.environ.get("C09_REPAIRED", "1") == "1"     # testing hook: C09_REPAIRED=1 VERIF_REPO=<patched tree>
 KEY_FX = _REPAIRED          # leaf key carries the sign of a float            (make_dedup_key)
 KEY_OS = _REPAIRED          # frozenset constants use an ordered key           (make_dedup_key)
 ABS_THRESHOLD = _REPAIRED   # hex text for abs(value) > 10**13                  (IntNode.generate_evaluation_code)
